@@ -102,6 +102,35 @@ mut("C17", "unmarshal_skips_validation", SS+"eventtrigger.go", """	if err := d.V
 	}
 	return nil""")
 
+# ---- C10 (start-up: InitChain establishes the representation invariant) ----
+APP = "rolling-shutter/app/app.go"
+mut("C10", "initchain_duplicate_config_pointer", APP, "app.Configs = []*BatchConfig{&bc}", "app.Configs = []*BatchConfig{&bc, &bc}")
+mut("C10", "initchain_no_config", APP, "app.Configs = []*BatchConfig{&bc}", "app.Configs = []*BatchConfig{}")
+mut("C10", "initchain_votes_dropped", APP, "		app.CheckTxState = NewCheckTxState()\n		app.updateCheckTxMembers()", "		app.CheckTxState = NewCheckTxState()\n		app.ConfigVoting = ConfigVoting{}\n		app.updateCheckTxMembers()")
+mut("C10", "initchain_nil_config_slot", APP, "app.Configs = []*BatchConfig{&bc}", "app.Configs = []*BatchConfig{&bc, nil}")
+
+# ---- C12 (genesis power map) ----
+PM = "rolling-shutter/app/powermap.go"
+mut("C12", "makepowermap_power_constant", PM, "res[pubkey] += v.Power", "res[pubkey] += 1")
+mut("C12", "makepowermap_bad_key_skipped", PM, """		pubkey, err := NewValidatorPubkey(data)
+		if err != nil {
+			return res, err
+		}""", """		pubkey, err := NewValidatorPubkey(data)
+		if err != nil {
+			continue
+		}""")
+mut("C12", "validator_key_length_not_exact", "rolling-shutter/app/types.go", "if len(pubkey) != ed25519.PublicKeySize {", "if len(pubkey) < ed25519.PublicKeySize {")
+
+# ---- C11 (threshold of distinct member votes) ----
+VOT = "rolling-shutter/app/voting.go"
+mut("C11", "config_threshold_minus_one", APP, "app.ConfigVoting.Outcome(int(app.LastConfig().Threshold))", "app.ConfigVoting.Outcome(int(app.LastConfig().Threshold) - 1)")
+mut("C11", "config_votes_not_reset", APP, "		app.ConfigVoting = NewConfigVoting()\n		err = app.addConfig(bc)", "		err = app.addConfig(bc)")
+mut("C11", "vote_filed_under_wrong_candidate", VOT, "			v.Votes[sender] = i\n			return", "			v.Votes[sender] = i / 2\n			return")
+mut("C11", "histogram_counts_double", VOT, "numVotes[vote]++", "numVotes[vote] += 2")
+mut("C11", "dkg_threshold_halved", APP, "threshold := int(dkg.Config.Threshold)", "threshold := int(dkg.Config.Threshold) / 2")
+mut("C11", "dkg_restart_on_success_outcome", APP, "if !ok || success || outdatedEon {", "if !ok || (success && eon == 0) || outdatedEon {")
+mut("C11", "outcome_ignores_zero_check", VOT, "if votes > 0 && votes >= numRequiredVotes {", "if votes >= numRequiredVotes-1 {")
+
 # ---- harmless edits (must-pass corpus): semantics-preserving changes that must NOT raise an alarm ----
 H = []
 def harm(prop, name, file, old, new, all=False):
@@ -218,6 +247,14 @@ harm("C20", "rename_gossip_message", "rolling-shutter/keyper/eonpkhandler.go", "
 
 	err = pkh.messaging.SendMessage(ctx, signedKey)""")
 harm("C04", "rename_unmarshalled_message", "rolling-shutter/p2p/messaging.go", "unmshl", "decoded", True)
+harm("C10", "initchain_rename_genesis_state", "rolling-shutter/app/app.go", "genesisState", "genesis", True)
+harm("C12", "makepowermap_rename_and_temp", "rolling-shutter/app/powermap.go", """		res[pubkey] += v.Power
+	}
+	return res, nil""", """		power := v.Power
+		res[pubkey] += power
+	}
+	return res, nil""")
+harm("C11", "outcome_threshold_named_temporary", "rolling-shutter/app/app.go", "	_, ok := app.ConfigVoting.Outcome(int(app.LastConfig().Threshold))", "	required := int(app.LastConfig().Threshold)\n	_, ok := app.ConfigVoting.Outcome(required)")
 harm("C09", "rename_vote_histogram", "rolling-shutter/app/voting.go", "numVotes", "tally", True)
 
 def main():
